@@ -81,6 +81,10 @@ StmtDescs ==
   \* "<v>-" with its last character missing, "<v>^" in another letter case (they name no known format)
   \cup [fields : {V01Req}, declared : {v \o m : v \in {"link02", "slsa01", "slsa02"}, m \in {"+", "-", "^"}},
         contained : {"link02", "slsa01", "slsa02"}]
+  \* the statement's OWN type string ("_type") is the other format's, an unknown one or empty, on documents of
+  \* exactly one format's shape: whatever is then decided, parser and version judgement decide the same
+  \cup [fields : {V01Req, NaiveReq, NaiveReq \cup NaiveOpt}, declared : {"link02"}, contained : {"link02"},
+        stype : {"crossed", "unknown", "empty"}]
 
 MCInit ==
   /\ \/ kind = "rule" /\ toks \in RuleInputs /\ desc = [x |-> 0]
